@@ -125,7 +125,11 @@ def object_digest(capellambse, mdl, elem, with_backrefs: bool) -> dict:
         if not with_backrefs and isinstance(acc, capellambse.model.ReferenceSearchingAccessor):
             continue
         try:
-            d["." + name] = canon(getattr(obj, name))
+            v = canon(getattr(obj, name))
+            if isinstance(acc, capellambse.model.ReferenceSearchingAccessor) and isinstance(v, list):
+                # back-references are found by scanning file after file: their order is not a model property
+                v = sorted(v, key=str)
+            d["." + name] = v
         except Exception as e:  # noqa: BLE001
             d["." + name] = f"!{type(e).__name__}"
     return d
@@ -222,6 +226,12 @@ def compare_layouts(ctx: Ctx, out: Outcome, spec: dict, mono, frag, lay, objs_bu
             keys = [k for k in dm if dm.get(k) != df.get(k)] + [k for k in df if k not in dm]
             k = keys[0]
             cls = "parent" if k == "parent" else ("layer" if k == "layer" else "relation")
+            if cls == "relation":
+                acc = getattr(type(mono.by_uuid(i)), k[1:], None)
+                cls += "-differs|" + type(acc).__name__
+                out.find(f"api|{cls}", f"{els_m[i].get(XSI_T)} {i}: {k} monolithic={str(dm.get(k))[:120]} fragmented={str(df.get(k))[:120]}",
+                         {"kind": "object", "layout": spec, "id": i, "what": k})
+                continue
             out.find(f"api|{cls}-differs", f"{els_m[i].get(XSI_T)} {i}: {k} monolithic={str(dm.get(k))[:120]} fragmented={str(df.get(k))[:120]}",
                      {"kind": "object", "layout": spec, "id": i, "what": k})
     # raw loader navigation for every element
@@ -240,6 +250,19 @@ def compare_layouts(ctx: Ctx, out: Outcome, spec: dict, mono, frag, lay, objs_bu
         if owner != lay.owner.get(i):
             out.find("loader|find_fragment-not-owner", f"{i}: find_fragment={owner}, owner={lay.owner.get(i)}",
                      {"kind": "nav", "layout": spec, "id": i, "what": "find_fragment"})
+    # unrestricted searches (a placeholder must not show up as an object)
+    xts = list(dict.fromkeys(SEARCH_XT + [(els_m[r].get(XSI_T) or ":").split(":")[1] for r in roots]))
+    for xt in xts:
+        def gs(m):
+            try:
+                return sorted(o.uuid for o in m.search(*([xt] if xt else [])))
+            except Exception as e:  # noqa: BLE001
+                return f"!{type(e).__name__}"
+        sm, sf = gs(mono), gs(frag)
+        out.case(("gsearch", tag, xt), None, nontrivial=True)
+        if sm != sf:
+            out.find("api|search-differs", f"search({xt or '*'}): monolithic {len(sm) if isinstance(sm, list) else sm} results, fragmented {len(sf) if isinstance(sf, list) else sf}",
+                     {"kind": "search", "layout": spec, "id": None, "xtype": xt})
     # searches restricted to a subtree
     targets = list(dict.fromkeys([r for r in roots] + [els_m[r].getparent().get("id") for r in roots if els_m[r].getparent() is not None
                                                         and els_m[r].getparent().get("id")] + chosen[:6]))
@@ -372,7 +395,7 @@ def gen_specs(ctx: Ctx) -> list[dict]:
     for model, res in small:
         src = links.data_dir() / model
         main, _ = fragmenter.find_main(src)
-        cands = [c for c in fragmenter.candidate_cut_points(src.parent / main) if c[2] >= 2]
+        cands = [c for c in fragmenter.candidate_cut_points(src.parent / main) if c[2] >= int(os.environ.get('C06_MINSIZE', '2'))]
         if not ctx.thorough:
             ctx.rng.shuffle(cands)
             cands = cands[: max(6, len(cands) // 5)]
